@@ -83,14 +83,23 @@ func formatNumberUnitShort[T NumberType](amount T, unit *UnitDefinition, display
 	}
 	switch {
 	case amount == 1 || amount == -1:
-		return strings.TrimRight(fmt.Sprintf(formatString, amount), "0.") + unit.NameShortSingular()
+		return trimFraction(fmt.Sprintf(formatString, amount)) + unit.NameShortSingular()
 	case amount != 0:
-		return strings.TrimRight(fmt.Sprintf(formatString, amount), "0.") + unit.NameShortPlural()
+		return trimFraction(fmt.Sprintf(formatString, amount)) + unit.NameShortPlural()
 	case displayZero:
-		return strings.TrimRight(fmt.Sprintf(formatString, amount), "0.") + unit.NameShortPlural()
+		return trimFraction(fmt.Sprintf(formatString, amount)) + unit.NameShortPlural()
 	default:
 		return ""
 	}
+}
+
+// trimFraction removes trailing zeros of a fractional part (and a then-trailing decimal point).
+// Digits before the decimal point are never touched.
+func trimFraction(number string) string {
+	if !strings.Contains(number, ".") {
+		return number
+	}
+	return strings.TrimRight(strings.TrimRight(number, "0"), ".")
 }
 
 func formatNumberUnitLong[T NumberType](amount T, unit Unit, displayZero bool) string {
